@@ -72,6 +72,28 @@ def run(tier):
             ck.finding("R1.panic-sources", "R1.narrow-arith/%s#%d" % (ident, k), F.short_span(sp),
                        "`%s`: checked %s on %s values overflows for a construct with more than 255 parts: prepare() panics (debug builds) instead of returning an error" % (f.parent, b, a))
 
+    # ---------------- R1c multiplicative accumulators.  A counter that grows by one per input character needs 2^32 characters to overflow (not
+    # decided, see above); a value that is *multiplied* in a loop overflows after a few dozen iterations whatever its width (`code = code * 16 +
+    # digit` over the digits of `\u{...}`: nine hex digits).  The front end reads numbers through parsers that report failure; it has no
+    # overflow-checked multiplication inside a loop.
+    import loops as L5
+    ck.rule("R1c.no-multiplicative-accumulator", "no overflow-checked multiplication inside a loop of the lexer / parser / compiler (a digit accumulator panics on a long digit run)", floor=10)
+    for f in front:
+        if f.derived:
+            continue
+        lb = set()
+        for hd, body in L5.natural_loops(f):
+            lb |= body
+        for bi, bl in enumerate(f.blocks):
+            t = bl["t"]
+            if t[0] == "assert" and str(t[1]).startswith("Overflow") and bi in lb and not bl["c"]:
+                mul = str(t[1]).split(":")[1] in ("Mul", "Shl")
+                ck.instance("R1c.no-multiplicative-accumulator", "%s: checked %s in a loop" % (f.path, str(t[1]).split(":")[1]), F.short_span(t[8]), ok=not mul, nontrivial=mul)
+                if mul:
+                    ck.finding("R1c.no-multiplicative-accumulator", "R1c.no-multiplicative-accumulator/%s" % (f.parent if f.closure else f.path), F.short_span(t[8]),
+                               "`%s` multiplies a %s inside a loop with overflow checking: a run of digits long enough (nine hex digits for a u32) makes prepare() panic in "
+                               "debug builds and wrap to a wrong value in release builds (`\"\\u{100000041}\"` reads as \"A\")" % (f.path, fx.tys(t[7]) if t[7] is not None else "integer"))
+
     # ---------------- R2
     ck.rule("R2.recursion", "recursive cycles of the parser are depth guarded (cycles of the compiler recurse over the AST, which the parser bounds)", floor=8)
     parser_guarded = True
